@@ -769,19 +769,28 @@ package io
 // not have; the lookup in the field table can miss, and a missed lookup must not be used (C04)
 //@ func (mapDecoder).canDecodeObjectAsMap
 //@   nopanic
+// (assumed) every decode handler stored in a field table is one of this package's decoders
+//@ type DecodeHandler(dec, t, p)
+//@   use decany
 //@ func (mapDecoder).decodeObjectAsMap
 //@   prop C04
 //@   havoc
 //@   flag nilcheck
 //@   flag bounds=panic
-//@   requires dec != nil && 0 <= dec.head && dec.head <= dec.tail && dec.tail <= len(dec.buf)
-//@   requires dec.reader != nil ==> ghost.rpos[ival(dec.reader)] >= dec.tail &&
-//@       forall(j, off(dec.buf) + dec.head, off(dec.buf) + dec.tail, mem(dec.buf, j) == ghost.rstream[ival(dec.reader)][ghost.rpos[ival(dec.reader)] - dec.tail - off(dec.buf) + j])
-//@   requires dec.reader != nil ==> dec.buf == nil || len(dec.buf) > 0
+//@   use decwf
 //@   requires valdec.t != nil
-//@   stable dec.head, dec.tail, dec.buf, dec.reader, dec.buf[*]
-//@   modifies ghost.*
-//@   loop 1 invariant [window] 0 <= dec.head && dec.head <= dec.tail && dec.tail <= len(dec.buf) && (dec.reader != nil ==> (dec.buf == nil || len(dec.buf) > 0) && ghost.rpos[ival(dec.reader)] >= dec.tail)
+//@   modifies ghost.rpos[ival(dec.reader)], ghost.rfailed[ival(dec.reader)]
+//@   loop 1 invariant [shape] 0 <= dec.head && dec.head <= dec.tail && dec.tail <= len(dec.buf)
+//@   loop 1 invariant [room] dec.reader != nil ==> (dec.buf == nil || len(dec.buf) > 0) && ghost.rpos[ival(dec.reader)] >= dec.tail
 //@   loop 1 invariant [coupling] dec.reader != nil ==> forall(j, off(dec.buf) + dec.head, off(dec.buf) + dec.tail, mem(dec.buf, j) == ghost.rstream[ival(dec.reader)][ghost.rpos[ival(dec.reader)] - dec.tail - off(dec.buf) + j])
-//@   loop 2 invariant [window] 0 <= dec.head && dec.head <= dec.tail && dec.tail <= len(dec.buf) && (dec.reader != nil ==> (dec.buf == nil || len(dec.buf) > 0) && ghost.rpos[ival(dec.reader)] >= dec.tail)
+//@   loop 1 invariant [memory] dec.reader == nil ==> same(dec.buf, old(dec.buf)) && dec.tail == old(dec.tail)
+//@   loop 1 invariant [memory_bytes] dec.reader == nil ==> forall(j, mem(dec.buf, j) == old(mem(dec.buf, j)))
+//@   loop 1 invariant [sticky] old(dec.Error) != nil ==> dec.Error != nil
+//@   loop 1 invariant [bufid] arr(dec.buf) == old(arr(dec.buf)) || isnew(arr(dec.buf))
+//@   loop 2 invariant [shape] 0 <= dec.head && dec.head <= dec.tail && dec.tail <= len(dec.buf)
+//@   loop 2 invariant [room] dec.reader != nil ==> (dec.buf == nil || len(dec.buf) > 0) && ghost.rpos[ival(dec.reader)] >= dec.tail
 //@   loop 2 invariant [coupling] dec.reader != nil ==> forall(j, off(dec.buf) + dec.head, off(dec.buf) + dec.tail, mem(dec.buf, j) == ghost.rstream[ival(dec.reader)][ghost.rpos[ival(dec.reader)] - dec.tail - off(dec.buf) + j])
+//@   loop 2 invariant [memory] dec.reader == nil ==> same(dec.buf, old(dec.buf)) && dec.tail == old(dec.tail)
+//@   loop 2 invariant [memory_bytes] dec.reader == nil ==> forall(j, mem(dec.buf, j) == old(mem(dec.buf, j)))
+//@   loop 2 invariant [sticky] old(dec.Error) != nil ==> dec.Error != nil
+//@   loop 2 invariant [bufid] arr(dec.buf) == old(arr(dec.buf)) || isnew(arr(dec.buf))
